@@ -8,10 +8,18 @@ namespace RG
 /-- template variables that hold HTML produced by marko / the recipe renderer (already escaped piece by piece there) -/
 def htmlTemplateVariables : List String := ["description", "welcome_message", "body"]
 
+/-- the template's name ends in `.html` (what `select_autoescape(["html", "xml"])` looks at) -/
+def isHtmlTemplate (name : String) : Bool :=
+  match name.toList.reverse with
+  | 'l' :: 'm' :: 't' :: 'h' :: '.' :: _ => true
+  | _ => false
+
 /-- a printed expression is handled correctly: HTML bodies are marked `safe` and nothing else; every other value - titles, names,
     labels, hrefs, counts - goes through auto-escaping unfiltered -/
 def templateOutputOk (o : String × String × List String) : Bool :=
-  if htmlTemplateVariables.contains o.2.1 then o.2.2 == ["safe"] else o.2.2 == []
+  -- only HTML templates (auto-escaped by their extension) print anything: a style sheet is included inside `<style>`, where nothing is escaped
+  isHtmlTemplate o.1 &&
+  (if htmlTemplateVariables.contains o.2.1 then o.2.2 == ["safe"] else o.2.2 == [])
 
 /-- `markupsafe.escape`, the escaping of Jinja's autoescape -/
 def jinjaEscapeChar : Char → Str
